@@ -64,7 +64,7 @@ SCRIPTS_T = {
         "    if d and t:\n        T = Fraction(t)\n        ok = (T + tol) * (11 if d <= 400 else 10) >= d and (T - tol) <= 2 * d\n"
         "    print(ev, repr(text), '->', repr(r), 'distance', d, 'duration', t)\n"
         "if kind == 'ok' and CLASS == 'field':\n"
-        "    rec = athlib.utils.field_event_record(ev, gender)\n    ok = (not rec) or float(r) <= rec * 1.2 * (1 + 1e-9)\n    print(ev, repr(text), '->', repr(r), 'record', rec)\n"
+        "    T = getattr(athlib.utils, 'field_event_records_by_gender'.upper())\n    rec = T.get((gender or 'all').lower(), T['all']).get(ev.upper())\n    ok = (not rec) or float(r) <= rec * 1.2 * (1 + 1e-9)\n    print(ev, repr(text), '->', repr(r), 'record', rec)\n"
         "sys.exit(0 if ok else 1)\n"),
     'idempotent': _PRE + "k2, r2 = run(r) if kind == 'ok' else (kind, r)\nprint(ev, repr(text), '->', repr(r), '->', k2, repr(r2))\nsys.exit(0 if kind != 'ok' or (k2 == 'ok' and r2 == r) else 1)\n",
     'unexpected-exception': 'import sys\nsys.exit(0)\n',
@@ -197,7 +197,9 @@ def body(ev, cls, template, gender, prec):
             dots = [i for i, c in enumerate(cells) if cell_test(c, lambda ch: ch == '.')]
             if len(dots) != 1 or len(cells) - dots[0] - 1 != 2 or dots[0] == 0 or not all(cell_test(c, lambda ch: ch in D) for i, c in enumerate(cells) if i != dots[0]):
                 raise hc.PathFail('shape', 'malformed %r' % (r,))
-            rec = utils.field_event_record(ev, gender)
+            # the record table itself, not the library's lookup helper: a gender the table does not know is held to the overall record
+            T = utils.FIELD_EVENT_RECORDS_BY_GENDER
+            rec = T.get((gender or 'all').lower(), T['all']).get(ev.upper())
             if rec:
                 val = digits_value(cells[:dots[0]]) * 100 + digits_value(cells[dots[0] + 1:])
                 eng.check(z3.ToReal(val) <= realval(rec) * 120 * (1 + z3.RealVal('1/1000000')), 'speed')
